@@ -37,7 +37,8 @@ def case_strategy():
     return st.fixed_dictionaries({
         'pva': gen.pva_strategy(max_lat=85.0, max_pitch=89.9),
         'sensor_type': st.sampled_from(['rate', 'increment']),
-        'h': st.sampled_from(H_CHOICES + [0.001, 0.002, 0.005]),
+        # 1/300 s and 1/128 s: sampling intervals that are not a whole number of microseconds (nor of any decimal unit)
+        'h': st.sampled_from(H_CHOICES + [0.001, 0.002, 0.005, 1 / 300, 1 / 300, 1 / 128]),
         'T': st.sampled_from([2.0, 2.0, 10.0, 10.0, 60.0, 300.0]),
         'nharm': st.integers(1, 3),
         'wamp_exp': st.floats(-3.0, 0.477),      # log10 rad/s up to 3
@@ -122,6 +123,8 @@ NAMES = ('position', 'velocity', 'attitude')
 def run_convergence(case, ctx):
     pva = gen.to_pva(case['pva'], 0.0)
     T, h, stype = case['T'], case['h'], case['sensor_type']
+    if int(round(T / h)) % 10:
+        h = 1 / 300               # the ten checkpoints must fall on samples (1/128 s over 2 s does not)
     C0 = np.asarray(ROT.dcm_from_rph(pva[['roll', 'pitch', 'heading']].values.astype(float)), float)
     P, wamp, famp = build_signals(case, C0, pva.lat, pva.alt)
     q = ROT.quat_from_dcm(C0)
